@@ -6,7 +6,9 @@ CONSTANTS
   WriteErrs = {"EPIPE", "RST", "timeout", "other", "closed"}
   ForwardWithErr = TRUE
   DialMayFail = TRUE
+  BufCap = 3
+  BufMode = "private"
 VIEW view
-INVARIANTS TypeOK PrefixFidelity NothingReadIsLost InFlightOnly CountsMatch BothClosed EndedClosesBoth NoExtraClose GaugeBalanced
+INVARIANTS TypeOK PrefixFidelity BufferIntegrity NothingReadIsLost InFlightOnly CountsMatch BothClosed EndedClosesBoth NoExtraClose GaugeBalanced
 PROPERTIES NoWriteAfterEnd Returns AllClosesHappen
 CHECK_DEADLOCK FALSE
